@@ -531,6 +531,7 @@ impl PageCacheConfig {
     ///
     /// Default: 256 (1MB with 4KB pages)
     pub fn max_pages(&mut self, count: usize) -> &mut Self {
+        assert!(count > 0, "max_pages must be positive");
         self.max_pages = count;
         self
     }
